@@ -44,7 +44,7 @@ def key_fn(case, ob, clause):
             v[0] == "PIndexObj" and any(a[0] == "DCast" and a[1] in ("CTInt", "CTFloat", "CTComplex") for a in d[1]):
         return "accept-set/compound-cast-swallows-own-protocol-exception-in-c-only"          # residue of F17
     insts = [d] if d[0] == "DInstance" else ([a for a in d[1] if a[0] == "DInstance"] if d[0] == "DCompound" else [])
-    if clause in (1, 3) and any(not a[2] for a in insts) and v == ["PNone"] and c == ["Accept", ["PNone"]] and p == ["Reject"]:
+    if clause in (1, 3) and any(not a[2] and a[1] in (0, 1) for a in insts) and v == ["PNone"] and c == ["Accept", ["PNone"]] and p == ["Reject"]:
         return "accept-set/none-is-instance-of-class-but-allow_none-false"                   # F18
     return "%s/%s/%s" % (CLAUSE.get(clause, clause), pv.shape(d), pv.vshape(v))
 
